@@ -64,6 +64,85 @@ def enclosing_decl(path, line):
         j += 1
     return (m.group(1) if m else None), "\n".join(lines[i:j])
 
+def parse_errors(out, seen, res):
+    """add the declarations named by Lean's error lines to res["broken"]; returns the new entries"""
+    new = []
+    for m in re.finditer(r"error: (\S+?\.lean):(\d+):\d+: (.*)", out):
+        rel, line, msg = m.group(1), int(m.group(2)), m.group(3)
+        path = rel if os.path.isabs(rel) else os.path.join(LEAN, rel)
+        name, text = enclosing_decl(path, line)
+        key = (rel, name)
+        if key in seen:
+            continue
+        seen.add(key)
+        generated = rel.endswith("Translated.lean")
+        stmt = re.split(r":=\s*(?:by\b|$)", text, maxsplit=1, flags=re.M)[0]
+        if not re.search(r"c_rdsparser_\w+|cSetField|cRegister|cstep|crun", stmt):
+            stmt = text
+        ent = {"file": rel, "line": line, "decl": name, "msg": msg[:200],
+               "owners": sorted(ALL if generated or name is None else owners_of(stmt))}
+        res["broken"].append(ent); new.append(ent)
+    return new
+
+JOURNAL = os.path.join(infra.WORK, "localise-journal")
+
+def recover_journal():
+    """a localisation pass that was killed half-way leaves edited proof files behind: put the originals back"""
+    if not os.path.isdir(JOURNAL):
+        return
+    for f in os.listdir(JOURNAL):
+        try:
+            rel = f.replace("__", "/")
+            open(os.path.join(LEAN, rel), "w").write(open(os.path.join(JOURNAL, f)).read())
+            os.remove(os.path.join(JOURNAL, f))
+        except OSError:
+            pass
+
+def localise_further(res, seen, locked):
+    """see check(): returns True if, with the failed proofs set aside, everything else was checked"""
+    originals = {}
+    def set_aside(ent):
+        rel, name = ent["file"], ent["decl"]
+        if not name or rel.endswith("Translated.lean") or not (os.path.basename(rel).startswith("Trans") or rel.endswith("Refinement.lean")):
+            return False
+        path = rel if os.path.isabs(rel) else os.path.join(LEAN, rel)
+        text = open(path).read()
+        lines = text.split("\n")
+        i = next((k for k, l in enumerate(lines) if re.match(r"^(?:private |protected )?(?:theorem|lemma)\s+%s\b" % re.escape(name), l)), None)
+        if i is None:
+            return False
+        j = i + 1
+        while j < len(lines) and not re.match(r"^(private |protected )?(theorem|lemma|def|instance|abbrev|example|end |namespace |/--|#print|@\[|section |open )", lines[j]):
+            j += 1
+        decl = "\n".join(lines[i:j])
+        m = re.search(r":=\s*(?:by\b|$)", decl, re.M)
+        if not m:
+            return False
+        if path not in originals:
+            originals[path] = text
+            os.makedirs(JOURNAL, exist_ok=True)
+            open(os.path.join(JOURNAL, os.path.relpath(path, LEAN).replace("/", "__")), "w").write(text)
+        lines[i:j] = (decl[:m.start()] + ":= by sorry\n").split("\n")
+        open(path, "w").write("\n".join(lines))
+        return True
+    try:
+        todo = list(res["broken"])
+        for _ in range(8):
+            if not any([set_aside(e) for e in todo]):
+                return False
+            ok, out, _dt = infra.lake_build([REFINE_MODULE], locked=locked)
+            if ok:
+                return True
+            todo = parse_errors(out, seen, res)
+            if not todo:
+                return False
+        return False
+    finally:
+        for path, text in originals.items():
+            open(path, "w").write(text)
+            try: os.remove(os.path.join(JOURNAL, os.path.relpath(path, LEAN).replace("/", "__")))
+            except OSError: pass
+
 REFINE_MODULE = "RdsProps.Refinement"
 
 def untranslated_beyond_design():
@@ -110,6 +189,7 @@ def unchecked_dependents(failed_mods):
 
 def check(ctx, locked=True):
     """build the refinement module; returns dict(status=ok|broken|absent|unavailable, broken=[{decl, file, owners}], log)"""
+    recover_journal()
     if not os.path.exists(os.path.join(LEAN, "RdsProps", "Refinement.lean")):
         return {"status": "absent", "broken": []}
     extra = untranslated_beyond_design()
@@ -159,9 +239,17 @@ def check(ctx, locked=True):
             stmt = text
         res["broken"].append({"file": rel, "line": line, "decl": name, "msg": msg[:200],
                               "owners": sorted(ALL if generated or name is None else owners_of(stmt))})
-    # Lean stops at the first module that fails: every module that imports it (transitively) was not checked at all, so the
-    # refinement theorems stated there are unverified on this tree as well
-    failed_mods = set(b["file"][:-5].replace("/", ".") for b in res["broken"] if b["file"].endswith(".lean"))
+    # Lean stops at the first module that fails, so the modules importing it were not checked at all. To find out which
+    # refinement theorems really fail on this tree, continue past the failures: under the lock, the proof of every theorem that
+    # failed is replaced by `sorry` IN A TEMPORARY EDIT of the proof file (restored afterwards, whatever happens), and the
+    # build is repeated until it goes through or nothing new fails. The verdict stays "broken" — this only localises.
+    complete = False
+    if os.environ.get("VERIF_NO_LOCALISE") != "1":
+        try:
+            complete = localise_further(res, seen, locked)
+        except Exception as e:                      # localisation is an extra; never let it change the verdict
+            res.setdefault("notes", []).append("localisation pass failed: %r" % (e,))
+    failed_mods = set() if complete else set(b["file"][:-5].replace("/", ".") for b in res["broken"] if b["file"].endswith(".lean"))
     for rel, name, stmt in unchecked_dependents(failed_mods):
         own = sorted(owners_of(stmt))
         if own and (rel, name) not in seen:
